@@ -155,12 +155,19 @@ CLAIMED = {
              note="Trusted: ideal primitives in (b), os.urandom/random stubs in (a); recording list wrapper around the index arrays; "
                   "the distribution of the real random source is outside (the replay compares slot sets of repeated setups).",
              ref="3/C06"),
+ "C09": dict(cat="other", tech="bounded symbolic execution (CrossHair/z3) of the real client and server code composed over an in-memory transport",
+             text="The documented workflow runs with the real client Service against the real connector/ServicesManager/Service for "
+                  "all nine schemes, every client step by an object freshly loaded from the file-system model and the server "
+                  "restarted at a solver-chosen point; the JSON database passes the real utf-8/hex conversion and the delivered "
+                  "result bytes the real deserialiser and output converter; every stored and an absent keyword must be delivered "
+                  "its posting list. What is decided is the composition of the repository's own client and server code.",
+             note="NOT covered: the websockets library, TCP and real event-loop timing - the transport is an in-memory pair that "
+                  "delivers frames in order and closes when the handler ends; asyncio is env/aio.py, the file system env/memfs.py. "
+                  "Contents are concrete (pickling realises them); the solver chooses restart point and search order.",
+             ref="4/C09"),
 }
 
 NOT_APPLICABLE = {
- "C09": "end-to-end composition of two processes through the websockets library and a real asyncio event loop: C extensions, "
-        "sockets and timers cannot be encoded for a solver; with the transport concretised only an enumeration of concrete runs "
-        "remains, which is not this technique (its data path is decided under C01/C03, protocol state under C10/C11).",
 }
 
 PENDING = "check not built yet in this round (see DESIGN.md section 7 for the order of work)"
